@@ -1,4 +1,5 @@
 import LoguruModel.Markup.Lemmas
+import LoguruModel.Generated.MarkupEmit
 /-
 C06 – property theorems (only the theorems, the small lemmas they need, and non-vacuity examples).
 The tables `Markup.Gen.*` are regenerated from `/repo/loguru/_colorizer.py` on every run.
@@ -400,5 +401,90 @@ theorem precolorized_follows_level_color (toks : List Tok) (ops : List (Str × S
 
 example : (levelOps [.level, .text "x".toList] {} [("INFO".toList, "<red>".toList), ("INFO".toList, "<blue>".toList)]).map
     (fun c => find? "INFO".toList c.pre) = .ok (some (.ok "\x1b[34mx".toList)) := by decide +kernel
+
+/-! ## Dynamic (callable) formats: the memoised cache follows the level colours too -/
+
+/-- every cached entry is the colourisation of its format with the ANSI prefix it is keyed on -/
+def MemoOK (prep : Str → List Tok) (d : Dyn) : Prop :=
+  ∀ k r, memoFind k d.memo = some r → r = colorize (prep k.1) (some k.2)
+
+theorem dynStep_preserves (prep : Str → List Tok) (d d' : Dyn) (op : DynOp) (out : Option (Except Err Str))
+    (hm : MemoOK prep d) (h : dynStep prep d op = .ok (d', out)) : MemoOK prep d' := by
+  cases op with
+  | recolor n c =>
+    simp only [dynStep] at h
+    split at h
+    · injection h with h; injection h with h1 _; subst h1; exact hm
+    · cases h
+  | log fmt n =>
+    simp only [dynStep] at h
+    split at h
+    · injection h with h; injection h with h1 _; subst h1; exact hm
+    · rename_i a ha
+      split at h
+      · injection h with h; injection h with h1 _; subst h1; exact hm
+      · injection h with h; injection h with h1 _; subst h1
+        intro k r hk
+        simp only [memoFind] at hk
+        split at hk
+        · rename_i heq
+          have : (fmt, a) = k := by simpa using heq
+          subst this
+          injection hk with hk; exact hk.symm
+        · exact hm k r hk
+
+/-- after ANY history of logging calls and `level(name, color=…)` re-colourings, the format a colourising
+handler with a callable format uses for a call at level `n` is `colorize(prepare_format(fmt), CURRENT ansi of
+n)` – a cache hit can never resurrect an old colour, because the key contains the ANSI prefix itself -/
+theorem dynamic_cache_follows_level_color (prep : Str → List Tok) (ops : List DynOp) (d d' : Dyn)
+    (fmt n : Str) (r : Except Err Str)
+    (hrun : dynRun prep {} ops = .ok d) (hlog : dynStep prep d (.log fmt n) = .ok (d', some r)) :
+    ∃ a, find? n d.ansi = some a ∧ r = colorize (prep fmt) (some a) := by
+  have hall : ∀ (ops : List DynOp) (d0 d : Dyn), MemoOK prep d0 → dynRun prep d0 ops = .ok d → MemoOK prep d := by
+    intro ops
+    induction ops with
+    | nil => intro d0 d h0 h; simp [dynRun] at h; subst h; exact h0
+    | cons op rest ih =>
+      intro d0 d h0 h
+      simp only [dynRun] at h
+      split at h
+      · rename_i d1 o1 h1
+        exact ih d1 d (dynStep_preserves prep d0 d1 op o1 h0 h1) h
+      · cases h
+  have hm : MemoOK prep d := hall ops {} d (by intro k r h; simp [memoFind] at h) hrun
+  simp only [dynStep] at hlog
+  split at hlog
+  · injection hlog with hlog; injection hlog with _ h2; cases h2
+  · rename_i a ha
+    refine ⟨a, ha, ?_⟩
+    split at hlog
+    · rename_i r0 hr0
+      injection hlog with hlog; injection hlog with _ h2; injection h2 with h2; subst h2
+      exact hm (fmt, a) r0 hr0
+    · injection hlog with hlog; injection hlog with _ h2; injection h2 with h2; exact h2.symm
+
+/-- the code keys that cache as the model does: on the level's ANSI prefix (`self._levels_ansi_codes[level_id]`),
+and the memoised function colourises with exactly that argument (regenerated from `Handler.emit`/`__init__`) -/
+theorem dynamic_cache_keyed_on_ansi :
+    (∀ k ∈ GenEmit.dynCacheKeys, k = ("dynamic_format".toList, "self._levels_ansi_codes[level_id]".toList)) ∧
+    GenEmit.dynCacheKeys ≠ [] ∧
+    GenEmit.dynPrepParams = ["format_".toList, "ansi_level".toList] ∧
+    GenEmit.dynPrepReturn = "(colored, colored.colorize(ansi_level))".toList := by decide +kernel
+
+example : (do
+    let d ← dynRun (fun _ => [.level, .text "x".toList]) {}
+      [.recolor "INFO".toList "<red>".toList, .log "f".toList "INFO".toList, .recolor "INFO".toList "<blue>".toList]
+    let r ← dynStep (fun _ => [.level, .text "x".toList]) d (.log "f".toList "INFO".toList)
+    pure r.2) = .ok (some (.ok "\x1b[34mx".toList)) := by decide +kernel
+
+/-! ## A coloured message that no longer is `record["message"]` is dropped by EVERY handler -/
+
+/-- `Handler.emit` compares `colored_message.stripped` with `record["message"]` unconditionally, after this
+handler's filter and format function ran, and nowhere else (in particular not once-for-all in `Logger._log`):
+a rewrite of the shared record by a patcher, by an earlier handler or by this handler's own user code is seen
+by every handler (regenerated shape of `Handler.emit` / `Logger._log`) -/
+theorem drop_rule_is_per_handler :
+    GenEmit.dropRuleTopLevel = true ∧ GenEmit.dropRuleAfterUserCode = true ∧
+    GenEmit.emitStrippedCompares = 1 ∧ GenEmit.logStrippedCompares = 0 := by decide
 
 end C06
